@@ -548,6 +548,11 @@ fn handle_parse_node<Data: GarnishData>(
                 BuildNodeState::Initialized => match node.conditional_parent {
                     Some(_) => {}
                     None => {
+                        if node.conditional_items.is_empty() {
+                            // nothing to be the else of, both sides would be left as values
+                            Err(CompilerError::new_message("ElseJump definition has no conditional on its left".to_string()))?;
+                        }
+
                         if node.conditional_items.len() > 0 {
                             let mut new_items: Vec<(usize, BuildNode<Data>)> = vec![];
 
